@@ -227,6 +227,8 @@ pub struct Ctx {
     pub cfg: HookCfg,
     /// guest bytes the operation in progress is allowed to touch: (range id, lo, hi)
     pub allowed: Vec<(u32, usize, usize)>,
+    /// judge only accesses that change guest bytes (primitive, bulk and copy writes) against `allowed`
+    pub allowed_writes_only: bool,
     /// set by hooks when a touch lands outside `allowed`
     pub stray: Option<String>,
     pub sys: crate::sys::SysModel,
@@ -281,6 +283,7 @@ impl Ctx {
             cfg: HookCfg::default(),
             allowed: Vec::new(),
             stray: None,
+            allowed_writes_only: false,
             sys: Default::default(),
             seam_events: 0,
             discarded: false,
@@ -375,7 +378,7 @@ impl Ctx {
     }
 
     fn check_allowed(&mut self, addr: usize, len: usize, what: &'static str) {
-        if self.allowed.is_empty() || len == 0 {
+        if self.allowed.is_empty() || len == 0 || (self.allowed_writes_only && (what.ends_with("read") || what == "reference")) {
             return;
         }
         if let Some((rid, off, true)) = self.classify(addr) {
